@@ -484,9 +484,23 @@ def direct_clauses(pid, bench, ta, a, tb, b):
                         yield ("an accepted list cannot be tested for membership", {"constraints": [str(q) for q in cons], "version": tk, "error": m})
 
 
+def _more_unrankable(ctx, pid, bench, extra=4):
+    """a few more pools of the scheme, built only to meet versions that cannot be ranked (which pairs a pool meets is a
+    matter of chance; one pool is too few for a scheme-specific slip to show on every run)"""
+    seen = {(ta, tb) for ta, _a, tb, _b in bench.pool.unrankable}
+    for i in range(extra):
+        rng = ctx.rng(pid, "unrankable-pools", bench.name, i)
+        p = pools.build_pool(bench.name, rng, size=14, respell=0.5, need_hash=False)
+        for ta, a, tb, b in p.unrankable:
+            if (ta, tb) not in seen:
+                seen.add((ta, tb))
+                bench.pool.unrankable.append((ta, a, tb, b))
+
+
 def probe_unrankable(ctx, pid, bench):
     """run the direct clauses of `pid` on the versions the pool could not rank; report each failure as a violation"""
     stream = "unrankable:" + bench.name
+    _more_unrankable(ctx, pid, bench)
     for ta, a, tb, b in unrankable_pairs(bench):
         ctx.count(stream, key=(ta, tb), nontrivial=True)
         try:
